@@ -102,6 +102,20 @@ h_encode_decode.params_for = lambda fixed: {
 FLOATS = [0.0, -0.0, 1.5, -2.0, 1e300, float('inf')]
 
 
+def h_decoded_newtop(n: int, **sym):
+    """Graphs WITH layout markers (decoded trees), every variable as top."""
+    from vflib.props.c05 import h_newtop_encode
+    h_newtop_encode(n, **sym)
+
+
+def _dn_params(fixed):
+    from vflib.props.c05 import h_newtop_encode
+    return h_newtop_encode.params_for(fixed)
+
+
+h_decoded_newtop.params_for = _dn_params
+
+
 def h_format_edge(role_i: int, kind: int, ival: int, fidx: int, sval: str,
                   indent_i: int):
     """The formatter writes every atomic target it is given.  The target is
@@ -171,6 +185,13 @@ def obligations(tier: str) -> List[dict]:
         for top in (0, 1, 2):
             gp('default', 3, 2, 'min', 'extras', 400, top=top)
         gp('default', 2, 2, 'full', 'extras', 400, e0_s=0, e0_t=1)
+        for ops in [(0, 1), (1, 0), (1, 1), (1, 2)]:
+            obs.append({'name': f'E2 decoded graph (markers), every top, '
+                                f'n=3 ops={ops}', 'kind': 'e2',
+                        'fn': 'h_decoded_newtop',
+                        'fixed': {'n': 3, 'i0_op': ops[0], 'i1_op': ops[1]},
+                        'timeout': 400, 'bound': '<= 3 branches',
+                        'need_marks': ['new-top'] if ops == (1, 1) else []})
     else:
         for m in ('default', 'amr', 'custom'):
             for s0 in (0, 1):
